@@ -277,6 +277,7 @@ func (p *parser) unget(pos token.Pos, tok token.Token, lit string) {
 
 // Advance to the next token.
 func (p *parser) next0() {
+	verifStep()
 	if p.old.pos != 0 { // XGo: support unget
 		p.pos, p.tok, p.lit = p.old.pos, p.old.tok, p.old.lit
 		p.old.pos = 0
@@ -396,6 +397,7 @@ type bailout struct {
 }
 
 func (p *parser) error(pos token.Pos, msg string) {
+	verifStep()
 	epos := p.file.Position(pos)
 
 	// If AllErrors is not set, discard errors reported on the same line
@@ -527,6 +529,7 @@ func assert(cond bool, msg string) {
 // advance consumes tokens until the current token p.tok
 // is in the 'to' set, or token.EOF. For error recovery.
 func (p *parser) advance(to map[token.Token]bool) {
+	verifStep()
 	for ; p.tok != token.EOF; p.next() {
 		if to[p.tok] {
 			// Return only if parser made some progress since last
@@ -1772,6 +1775,7 @@ func parseTplRetProc(file *token.File, src []byte, offset int) (tplast.Node, sca
 // types of the form [...]T. Callers must verify the result.
 // If lhs is set and the result is an identifier, it is not resolved.
 func (p *parser) parseOperand(lhs, allowTuple, allowCmd bool) (x ast.Expr, isTuple bool) {
+	verifStep()
 	if p.trace {
 		defer un(trace(p, "Operand"))
 	}
@@ -3520,6 +3524,7 @@ func (p *parser) parseForStmt() ast.Stmt {
 }
 
 func (p *parser) parseStmt(allowCmd bool) (s ast.Stmt) {
+	verifStep()
 	if p.trace {
 		defer un(trace(p, "Statement"))
 	}
